@@ -70,7 +70,7 @@ impl FilterBlockBuilder {
 
     fn generate_filter(&mut self) {
         self.filter_offsets.push(self.filters.len());
-        if self.keys.is_empty() {
+        if self.key_offsets.is_empty() {
             return;
         }
 
@@ -82,7 +82,7 @@ impl FilterBlockBuilder {
     }
 
     pub fn finish(mut self) -> Vec<u8> {
-        if !self.keys.is_empty() {
+        if !self.key_offsets.is_empty() {
             self.generate_filter();
         }
 
@@ -147,15 +147,18 @@ impl FilterBlockReader {
     /// blk_offset is the offset of the block containing key. Returns whether the key matches the
     /// filter for the block at blk_offset.
     pub fn key_may_match(&self, blk_offset: usize, key: &[u8]) -> bool {
-        if get_filter_index(blk_offset, self.filter_base_lg2) > self.num() {
+        if get_filter_index(blk_offset, self.filter_base_lg2) >= self.num() {
             return true;
         }
 
         let filter_begin = self.offset_of(get_filter_index(blk_offset, self.filter_base_lg2));
         let filter_end = self.offset_of(get_filter_index(blk_offset, self.filter_base_lg2) + 1);
 
-        assert!(filter_begin < filter_end);
-        assert!(filter_end <= self.offsets_offset);
+        // An empty filter (e.g. written by NoFilterPolicy) or an ill-formed range can't exclude
+        // any key.
+        if filter_begin >= filter_end || filter_end > self.offsets_offset {
+            return true;
+        }
 
         self.policy
             .key_may_match(key, &self.block[filter_begin..filter_end])
